@@ -66,9 +66,9 @@ let units_str us =
 (* one character per token (harness/src/bin/c02.rs): the kinds the dispatch looks at, '.' = any other *)
 let kind_of_code (c : char) : kind =
   match c with
-  | 'l' -> K_LIBRARY | 'u' -> K_USE | 'c' -> K_CONTEXT | 'e' -> K_ENTITY | 'a' -> K_ARCHITECTURE
-  | 'f' -> K_CONFIGURATION | 'p' -> K_PACKAGE | 'b' -> K_BODY | 'i' -> KIdentifier | 's' -> K_IS
-  | 'n' -> K_NEW | _ -> KText
+  | 'l' -> coq_K_LIBRARY | 'u' -> coq_K_USE | 'c' -> coq_K_CONTEXT | 'e' -> coq_K_ENTITY | 'a' -> coq_K_ARCHITECTURE
+  | 'f' -> coq_K_CONFIGURATION | 'p' -> coq_K_PACKAGE | 'b' -> coq_K_BODY | 'i' -> KIdentifier | 's' -> coq_K_IS
+  | 'n' -> coq_K_NEW | _ -> KText
 
 let run_loop ln =
   let kinds, recs =
